@@ -156,6 +156,8 @@ def iradon_torch(
         val1 = torch.gather(filtered_i, 1, t1.view(B, -1)).view(B, output_size, output_size)
 
         proj = (1 - w) * val0 + w * val1
+        # outside the detector the projection is zero (np.interp(..., left=0, right=0) in scikit-image)
+        proj = torch.where((t_idx >= 0) & (t_idx <= N - 1), proj, torch.zeros_like(proj))
         recon += proj
 
     if circle:
